@@ -52,6 +52,15 @@ def vt_arg(x):
     return NodeVariableType(x)
 
 
+def et_arg(x, op):
+    """the edge_type argument handed to the API: the enum member or, for a deterministic half of the calls, the equal
+    plain string (what a JSON round trip or a caller typing '->' passes; EdgeType is a str-enum, so both are legal)"""
+    import zlib
+    if zlib.crc32(repr(op).encode()) % 2:
+        return str(x)
+    return EdgeType(x)
+
+
 def vt_token(x) -> str:
     return {'BAD_STR': '?s', 'BAD_OBJ': '?o'}.get(x, x)
 
@@ -156,10 +165,10 @@ def apply_op(g, op) -> str:
         elif k == 'ts_add_node':
             g.add_node(op[1], op[2], op[3], variable_type=NodeVariableType(op[4]), meta=op[5] if op[5] else None)
         elif k == 'add_edge':
-            g.add_edge(_endpoint(g, op[1]), _endpoint(g, op[2]), edge_type=EdgeType(op[3]),
+            g.add_edge(_endpoint(g, op[1]), _endpoint(g, op[2]), edge_type=et_arg(op[3], op),
                        meta=op[4] if op[4] else None, validate=op[5])
         elif k == 'add_edge_by_pair':
-            g.add_edge_by_pair((op[1], op[2]), edge_type=EdgeType(op[3]), meta=op[4] if op[4] else None,
+            g.add_edge_by_pair((op[1], op[2]), edge_type=et_arg(op[3], op), meta=op[4] if op[4] else None,
                                validate=op[5])
         elif k == 'add_edge_obj':
             from cai_causal_graph.graph_components import Edge
@@ -181,9 +190,9 @@ def apply_op(g, op) -> str:
         elif k == 'remove_node':
             g.remove_node(op[1])
         elif k == 'change_edge_type':
-            g.change_edge_type(op[1], op[2], EdgeType(op[3]))
+            g.change_edge_type(op[1], op[2], et_arg(op[3], op))
         elif k == 'replace_edge':
-            g.replace_edge(op[1], op[2], op[3], op[4], edge_type=None if op[5] is None else EdgeType(op[5]),
+            g.replace_edge(op[1], op[2], op[3], op[4], edge_type=None if op[5] is None else et_arg(op[5], op),
                            meta=op[6])
         elif k == 'replace_node':
             kw = {}
